@@ -112,7 +112,8 @@ def checkRuleSubst (ir : ProgIR) (cm : ClassMap) (r : RuleIR) (action : ByteArra
     let mut out : List String := []
     if segs.length < modItems.length then
       return [s!"action has {segs.length} item segments, rule has {modItems.length} items from first to last modified"]
-    for (it, seg, k) in (modItems.zip segs).zipIdx.map (fun ((a, b), c) => (a, b, c)) do
+    for (it, seg, k') in (modItems.zip segs).zipIdx.map (fun ((a, b), c) => (a, b, c)) do
+      let k := k'
       match it.out with
       | some (.cls oc sel) =>
         let outVal := ir.classes.getD oc []
@@ -144,7 +145,28 @@ def checkRuleSubst (ir : ProgIR) (cm : ClassMap) (r : RuleIR) (action : ByteArra
               if want.isSome ∧ got != want then
                 out := out ++ [s!"item {pre + k}: glyph {g} (index {idx} of selector class) is replaced by {got}, rule says {want} (PutSubs classes {icls}->{ocls})"]
         | none, none => out := out ++ [s!"item {pre + k}: rule substitutes a class but the action has no PutGlyph/PutSubs"]
+      | some (.copy k) =>
+        -- @k: the engine copies the slot at (input index of item k) - (input index of this item)
+        let ii (j : Nat) : Int := ((r.items.take j).filter (fun x => x.inCls.isSome)).length
+        let cur : Int := if it.inCls.isSome then ii (pre + k') else ii (pre + k') - 1
+        let want : Int := ii (k - 1) - cur
+        match seg.find? (fun i => i.op = kopPutCopy) with
+        | some i =>
+          let raw := i.args.getD 0 0
+          let got : Int := if raw ≥ 128 then (raw : Int) - 256 else raw
+          if got != want then out := out ++ [s!"item {pre + k'}: PutCopy offset {got}, but @{k} is {want} input slots away"]
+        | none => out := out ++ [s!"item {pre + k'}: rule copies @{k} but the action has no PutCopy"]
       | _ => pure ()
+      -- associations
+      if !it.assoc.isEmpty then
+        let ii (j : Nat) : Int := ((r.items.take j).filter (fun x => x.inCls.isSome)).length
+        let cur : Int := if it.inCls.isSome then ii (pre + k') else ii (pre + k') - 1
+        let want : List Int := it.assoc.map fun a => ii (a - 1) - cur
+        match seg.find? (fun i => i.op = kopAssoc) with
+        | some i =>
+          let got : List Int := (i.args.drop 1).map fun (raw : Nat) => if raw ≥ 128 then (raw : Int) - 256 else (raw : Int)
+          if got != want then out := out ++ [s!"item {pre + k'}: Assoc offsets {got}, rule's associations {it.assoc} are {want} input slots away"]
+        | none => out := out ++ [s!"item {pre + k'}: rule associates {it.assoc} but the action has no Assoc"]
     return out
 
 end Grc.Chk
